@@ -206,4 +206,86 @@ theorem read_data_sound : ∀ (fuel : Nat) (fd : Fd) (want : Nat) (sch : List Fa
           · rw [i4, a2, List.length_append]; omega
           · rw [List.length_append]; omega
 
+
+/-- the loop of `chunks_from_temp`: when it reports success, everything of the temp file from the descriptor's offset on has been
+appended to the output at its offset, and the output's offset moved past it — for every fault schedule -/
+theorem tempLoop_sound : ∀ (fuel : Nat) (tmp out : Fd) (sch : List Fault) (out' : Fd) (sch' : List Fault),
+    tmp.pos ≤ tmp.data.length → tempLoop fuel tmp out sch = (true, out', sch') →
+    out'.data = writeAt out.data out.pos (tmp.data.drop tmp.pos) ∧ out'.pos = out.pos + (tmp.data.length - tmp.pos)
+  | 0, _, _, _, _, _, _, h => by simp [tempLoop] at h
+  | fuel + 1, tmp, out, sch, out', sch', hp, h => by
+    unfold tempLoop at h
+    simp only at h
+    generalize hs : sysRead tmp BUF (nextFault sch).1 = s at h
+    obtain ⟨r, bs, tmp'⟩ := s
+    obtain ⟨a1, a2, a3, a4, a5, a6⟩ := sysRead_bytes tmp BUF _ r bs tmp' hs
+    simp only at h
+    by_cases hr : r = -1
+    · simp [hr] at h
+    · simp only [hr, ↓reduceIte] at h
+      by_cases hz : bs.length = 0
+      · simp only [hz, ↓reduceIte, Prod.mk.injEq, true_and] at h
+        obtain ⟨rfl, _⟩ := h
+        -- a successful read of nothing: the end of the temp file
+        have hend : tmp.data.length ≤ tmp.pos := by
+          cases hf : (nextFault sch).1 with
+          | ok =>
+            rw [hf] at hs
+            simp only [sysRead, Prod.mk.injEq] at hs
+            obtain ⟨_, hb, _⟩ := hs
+            rw [← hb] at hz
+            simp only [List.length_take, List.length_drop] at hz
+            have : 0 < BUF := by decide
+            omega
+          | short k =>
+            rw [hf] at hs
+            simp only [sysRead, Prod.mk.injEq] at hs
+            obtain ⟨_, hb, _⟩ := hs
+            rw [← hb] at hz
+            simp only [List.length_take, List.length_drop] at hz
+            have : 0 < BUF := by decide
+            split at hz <;> omega
+          | eintr => rw [hf] at hs; simp only [sysRead, Prod.mk.injEq] at hs; exact absurd hs.1.symm hr
+          | fail => rw [hf] at hs; simp only [sysRead, Prod.mk.injEq] at hs; exact absurd hs.1.symm hr
+        have hd : tmp.data.drop tmp.pos = [] := List.drop_eq_nil_of_le hend
+        rw [hd]
+        exact ⟨by simp [writeAt], by omega⟩
+      · simp only [hz, ↓reduceIte] at h
+        generalize hw : writeData out bs (nextFault sch).2 = w at h
+        obtain ⟨ok, out1, sch2⟩ := w
+        simp only at h
+        cases ok with
+        | false => simp at h
+        | true =>
+          simp only [↓reduceIte] at h
+          obtain ⟨w1, w2⟩ := write_data_sound out out1 bs _ sch2 hw
+          have hbl : tmp.pos + bs.length ≤ tmp.data.length := by
+            have := congrArg List.length a4
+            simp only [List.length_take, List.length_drop] at this
+            omega
+          have ih := tempLoop_sound fuel tmp' out1 sch2 out' sch' (by rw [a1, a2]; exact hbl) h
+          rw [a1, a2, w1, w2] at ih
+          refine ⟨?_, by rw [ih.2]; omega⟩
+          rw [ih.1]
+          -- two writes in a row are one write of the concatenation
+          have hsplit : tmp.data.drop tmp.pos = bs ++ tmp.data.drop (tmp.pos + bs.length) := by
+            conv => lhs; rw [← List.take_append_drop bs.length (tmp.data.drop tmp.pos)]
+            rw [← a4, List.drop_drop]
+          rw [hsplit]
+          have hne : bs ≠ [] := by intro hb; rw [hb] at hz; simp at hz
+          exact (writeAt_append out.data out.pos bs _ hne).symm ▸ rfl
+
+/-- **`chunks_from_temp` is sound for every fault schedule** (failing seek, short or failing reads of the temp file, short or
+failing writes to the output): it reports success only if the WHOLE temp file is now in the output at the offset the output's
+descriptor had, and that offset moved past it — no chunk body is lost, duplicated or reordered on the way into the final file -/
+theorem chunks_from_temp_sound (tmp out : Fd) (sch : List Fault) (out' : Fd) (sch' : List Fault)
+    (h : chunksFromTemp tmp out sch = (true, out', sch')) :
+    out'.data = writeAt out.data out.pos tmp.data ∧ out'.pos = out.pos + tmp.data.length := by
+  unfold chunksFromTemp at h
+  simp only at h
+  split at h
+  · simp at h
+  · have := tempLoop_sound _ { tmp with pos := 0 } out _ out' sch' (Nat.zero_le _) h
+    simpa using this
+
 end Zck.C12
